@@ -70,6 +70,8 @@ func (o *Optimizer) checkFunctionCalls(stmt Statement) error {
 	}
 	for i, expr := range exprs {
 		aggrOK := i < nAggrOK
+		// Fields already followed from this expression: once is enough
+		followed := map[string]bool{}
 		var walk WalkCallback
 		walk = func(e Expression) bool {
 			if err != nil {
@@ -79,7 +81,8 @@ func (o *Optimizer) checkFunctionCalls(stmt Statement) error {
 			case *FieldReferenceExpr:
 				// The referenced field is checked where it is defined, but
 				// outside the select fields it must not lead to an aggregate
-				if !aggrOK {
+				if !aggrOK && !followed[fc.Name.Data] {
+					followed[fc.Name.Data] = true
 					fc.FieldExpr.Walk(walk)
 				}
 				return false
